@@ -142,7 +142,7 @@ type Sched struct {
 	Deadlock         bool // every live task is blocked inside the code under test
 	giveUp           chan struct{}
 	allBlocked       int32 // set when the last task able to run ended while others are blocked
-	notes            [maxTasks][2]int64
+	notes            [maxTasks][3]int64
 	self             *Task // the task executing BlockBegin (in limbo, but it is us)
 	stackBuf         []byte
 
@@ -863,6 +863,11 @@ func (s *Sched) watch() int {
 	}
 	return watchBlocked
 }
+
+// LiveTasks returns how many tasks have not ended yet.
+//
+//go:norace
+func (s *Sched) LiveTasks() int { return s.live }
 
 // SetNote / Note are two integer slots per task for the workload's own
 // bookkeeping that must stay readable after a run that did not join (a
